@@ -9,7 +9,7 @@ use mc_core::bfs::{self, Outcome};
 use mc_core::{cov, json, Ctx, Level, Value};
 use pallas_network2::behavior::responder::{ResponderBehavior, ResponderCommand};
 use pallas_network2::behavior::AnyMessage;
-use pallas_network2::{Behavior, InterfaceError, InterfaceEvent, Message as _};
+use pallas_network2::{Behavior, InterfaceError, InterfaceEvent, Message as _, PeerId};
 use std::collections::{BTreeMap, BTreeSet};
 use std::sync::Mutex;
 
@@ -314,6 +314,84 @@ pub fn run(ctx: Ctx) -> ! {
         }
         n
     };
+    // ---------------- responder connection bookkeeping: three connections from ONE host against
+    // a per-IP limit of 1 or 2 and an error threshold of 0 or 1; the complete tree over
+    // Connected / Disconnected / Error per connection, Housekeeping, and a violating / a valid
+    // first message on connection 0
+    let conn_grid = {
+        use pallas_network2::behavior::responder::connection::{ConnectionResponder, ConnectionResponderConfig};
+        let same_host = |p: u8| PeerId { host: "10.9.9.9".into(), port: 4000 + p as u16 };
+        #[derive(Clone, Copy, Debug)]
+        enum C {
+            Conn(u8),
+            Disc(u8),
+            Err(u8),
+            House,
+            Bad,
+            Propose,
+        }
+        let mut alpha = vec![C::House, C::Bad, C::Propose];
+        for p in 0..3u8 {
+            alpha.extend([C::Conn(p), C::Disc(p), C::Err(p)]);
+        }
+        let depth = if ctx.thorough { 6 } else { 5 };
+        let na = alpha.len() as u64;
+        let total = na.pow(depth as u32);
+        let bad = raw[i_bad].clone();
+        let prop = raw[i_prop].clone();
+        let count = std::sync::atomic::AtomicU64::new(0);
+        for (limit, max_err) in [(1usize, 1u32), (2, 0), (2, 1)] {
+            (0..total).into_par_iter().for_each(|code| {
+                let mut c = code;
+                let mut h = vec![];
+                for _ in 0..depth {
+                    h.push(alpha[(c % na) as usize]);
+                    c /= na;
+                }
+                let r = mc_core::catch(std::panic::AssertUnwindSafe(|| {
+                    let mut b = ResponderBehavior::default();
+                    b.connection = ConnectionResponder::new(ConnectionResponderConfig { max_error_count: max_err, max_connections_per_ip: limit });
+                    let waker = futures::task::noop_waker();
+                    let mut cx = std::task::Context::from_waker(&waker);
+                    for (i, e) in h.iter().enumerate() {
+                        let step = mc_core::catch(std::panic::AssertUnwindSafe(|| {
+                            match e {
+                                C::Conn(p) => b.handle_io(InterfaceEvent::Connected(same_host(*p))),
+                                C::Disc(p) => b.handle_io(InterfaceEvent::Disconnected(same_host(*p))),
+                                C::Err(p) => b.handle_io(InterfaceEvent::Error(same_host(*p), InterfaceError::Other("boom".into()))),
+                                C::House => b.execute(ResponderCommand::Housekeeping),
+                                C::Bad => b.handle_io(InterfaceEvent::Recv(same_host(0), vec![bad.clone()])),
+                                C::Propose => b.handle_io(InterfaceEvent::Recv(same_host(0), vec![prop.clone()])),
+                            }
+                            while let std::task::Poll::Ready(Some(_)) = futures::StreamExt::poll_next_unpin(&mut b, &mut cx) {}
+                        }));
+                        if let Err(p) = step {
+                            return Some((i, p));
+                        }
+                    }
+                    None
+                }));
+                count.fetch_add(1, std::sync::atomic::Ordering::Relaxed);
+                let hit = match r {
+                    Ok(x) => x,
+                    Err(p) => Some((usize::MAX, p)),
+                };
+                if let Some((i, p)) = hit {
+                    let hs: Vec<String> = h.iter().map(|e| format!("{e:?}")).collect();
+                    if i < h.len() && matches!(h[i], C::House) {
+                        house_panics.lock().unwrap().entry(p.site()).or_insert(format!("{hs:?}"));
+                    } else {
+                        ctx.violation(
+                            p.site(),
+                            format!("responder (max_connections_per_ip {limit}, max_error_count {max_err}, three connections from one host) panicked in step {i} of {hs:?}: {} at {}", p.message, p.location),
+                            json!({"behaviour": "responder", "family": "connections-from-one-host", "max_connections_per_ip": limit, "max_error_count": max_err, "history": hs, "panicking_step": i}),
+                        );
+                    }
+                }
+            });
+        }
+        (count.into_inner(), depth)
+    };
     let rcount = rcount.into_inner();
     let mut cp = command_panics.into_inner().unwrap();
     cp.extend(house_panics.into_inner().unwrap());
@@ -327,6 +405,7 @@ pub fn run(ctx: Ctx) -> ! {
         "traces_validated_against_impl" => st_i.transitions as u64 + rcount,
         "samples" => samples,
         "initiator" => json!({"states": st_i.states, "transitions": st_i.transitions, "max_depth": st_i.max_depth, "capped": st_i.capped, "fixpoint": st_i.fixpoint, "per_prefix": per_prefix, "events_in_alphabet": events.len()}),
+        "responder_connection_tree" => json!({"histories": conn_grid.0, "tree_depth": conn_grid.1, "configurations": "(max_connections_per_ip, max_error_count) in {(1,1), (2,0), (2,1)}", "alphabet": "Connected / Disconnected / Error for three connections from one host, Housekeeping, a keep-alive violation and a version proposal on connection 0"}),
         "responder_handshake_grid" => json!({"histories": hs_grid, "responder_version_tables": [[13], [11, 13, 14], [11, 14], [12, 13, 14, 15]], "proposals": "every subset of versions 10..=15"}),
         "responder" => json!({"histories": rcount, "tree_depth": rdepth, "tree_depth_behind_ban_prefixes": 3, "prefixes": prefixes.len(), "events_in_alphabet": revs.len(), "outputs_drained": outs_seen.into_inner()}),
         "raw_messages" => labels,
